@@ -16,14 +16,18 @@ import (
 
 	sdkmath "cosmossdk.io/math"
 	storetypes "cosmossdk.io/store/types"
+	codectypes "github.com/cosmos/cosmos-sdk/codec/types"
 	sdk "github.com/cosmos/cosmos-sdk/types"
 	distrtypes "github.com/cosmos/cosmos-sdk/x/distribution/types"
 	"github.com/ethereum/go-ethereum/common"
+	"github.com/ethereum/go-ethereum/core"
+	ethtypes "github.com/ethereum/go-ethereum/core/types"
 	evmtypes "github.com/evmos/ethermint/x/evm/types"
 
 	"github.com/functionx/fx-core/v8/testutil/helpers"
 	fxtypes "github.com/functionx/fx-core/v8/types"
 	cctypes "github.com/functionx/fx-core/v8/x/crosschain/types"
+	erc20types "github.com/functionx/fx-core/v8/x/erc20/types"
 
 	"verifharness/evmasm"
 	"verifharness/graph"
@@ -38,7 +42,7 @@ type StepJ struct {
 	T    string `json:"t"`
 	K    int    `json:"k"`
 	Mode string `json:"mode"`
-	Fail bool   `json:"fail"`
+	Fail string `json:"fail"` // "no" | "err" (fails inside the native action) | "panic" (the action panics midway)
 	ID   int    `json:"id"`
 }
 type FrameJ struct {
@@ -98,6 +102,9 @@ type Adapter struct {
 	txCan   [nEx][MaxNat]uint64
 	txFee   [nEx]uint64
 	claims  [MaxNat]uint64
+	tokenP  common.Address // second registered token (USDC); its conversion is disabled by governance at the end of the setup
+	claimP  uint64         // parked failed bridge-call result whose refund (of tokenP) cannot be completed: executing it panics midway
+	callP   uint64         // nonce of the outgoing bridge call claimP reports on
 	root    sdk.Context
 	base    *obs
 	cuts    map[string]*CaseCuts
@@ -166,6 +173,7 @@ func New(t *testing.T, c Consts) *Adapter {
 	for k := 1; k <= MaxNat; k++ {
 		a.claims[k-1] = e.Park(ctx, e.TokU, sdk.AccAddress(a.recvC.Bytes()), amt(k))
 	}
+	a.setupPanicClaim(ctx)
 	ctx = e.RewardBlock(ctx, 5000)
 	a.putPriv(ctx, &priv{Case: "none", Status: "none"})
 	a.root = ctx
@@ -233,6 +241,68 @@ func (a *Adapter) nativeData(m string, k int, x int) (to common.Address, data []
 	panic("method " + m)
 }
 
+// setupPanicClaim provisions the native call whose action PANICS after partial work, through public entry
+// points only: a second coin (USDC) is registered by governance and bridged in, executor 0 sends some of it out
+// with the bridgeCall precompile, the external chain reports the call as failed (observed claim, parked for
+// executeClaim), and governance disables the conversion of the token pair.  executeClaim of that result
+// consumes the pending claim, releases the bridge tokens to the refund address, converts them to the base coin
+// and then cannot convert the coin back to the ERC-20: HandleOutgoingBridgeCallRefund panics.
+func (a *Adapter) setupPanicClaim(ctx sdk.Context) {
+	w, e := a.W, a.E
+	tokP := world.DetExt("c09/token/USDC")
+	md := fxtypes.GetCrossChainMetadataManyToOne("USD Coin", "USDC", 18, cctypes.NewBridgeDenom(pcenv.Chain, tokP))
+	pcenv.Must(w.Handle(ctx, &erc20types.MsgRegisterCoin{Authority: world.GovAddr(), Metadata: md}))
+	e.Observe(ctx, &cctypes.MsgBridgeTokenClaim{ChainName: pcenv.Chain, BlockHeight: 200 + e.LastObserved(ctx), TokenContract: tokP, Name: "USD Coin", Symbol: "USDC", Decimals: 18})
+	pair, found := w.App.Erc20Keeper.GetTokenPair(ctx, "usdc")
+	pcenv.Mustf(found, "usdc token pair missing")
+	a.tokenP = pair.GetERC20Contract()
+	e.Deposit(ctx, tokP, e.Deployer.AccAddress(), pcenv.Units(100))
+	pcenv.Must(w.Handle(ctx, &erc20types.MsgConvertCoin{Coin: sdk.NewCoin("usdc", sdkmath.NewIntFromBigInt(pcenv.Units(100))), Receiver: a.ex[0].Hex(), Sender: e.Deployer.AccAddress().String()}))
+	before := map[uint64]bool{}
+	for n := range a.outgoingCalls(ctx) {
+		before[n] = true
+	}
+	ok, msg := w.EthCall(ctx, a.user, a.ex[0], ampleGas, pcenv.Prog(
+		pcenv.Call(a.tokenP, pcenv.TokenApprove(pcenv.CrosschainAddr, pcenv.Units(100))),
+		pcenv.Call(pcenv.CrosschainAddr, pcenv.BridgeCall(a.ex[0], []common.Address{a.tokenP}, []*big.Int{pcenv.Units(40)}, common.HexToAddress(a.dest)))))
+	pcenv.Mustf(ok, "bridgeCall of the second token: %s", msg)
+	for n := range a.outgoingCalls(ctx) {
+		if !before[n] {
+			a.callP = n
+		}
+	}
+	pcenv.Mustf(a.callP != 0, "outgoing bridge call of the second token not found")
+	n := e.LastObserved(ctx) + 1
+	b := e.Bridger.AccAddress().String()
+	anyc, err := codectypes.NewAnyWithValue(&cctypes.MsgBridgeCallResultClaim{ChainName: pcenv.Chain, BridgerAddress: b, EventNonce: n, BlockHeight: 200 + n,
+		Nonce: a.callP, TxOrigin: world.DetExt("c09/txorigin"), Success: false, Cause: ""})
+	pcenv.Must(err)
+	pcenv.Must(w.Handle(ctx, &cctypes.MsgClaim{ChainName: pcenv.Chain, BridgerAddress: b, Claim: anyc}))
+	pcenv.Mustf(e.LastObserved(ctx) == n, "result claim %d not observed", n)
+	pcenv.Mustf(ctx.KVStore(a.skey).Has(cctypes.GetPendingExecuteClaimKey(n)), "result claim %d not parked", n)
+	a.claimP = n
+	pcenv.Must(w.Handle(ctx, &erc20types.MsgToggleTokenConversion{Authority: world.GovAddr(), Token: "usdc"}))
+}
+
+// outgoingCalls: nonce -> record of the outgoing bridge calls in the store.
+func (a *Adapter) outgoingCalls(ctx sdk.Context) map[uint64]cctypes.OutgoingBridgeCall {
+	out := map[uint64]cctypes.OutgoingBridgeCall{}
+	it := storetypes.KVStorePrefixIterator(ctx.KVStore(a.skey), cctypes.OutgoingBridgeCallNonceKey)
+	defer it.Close()
+	for ; it.Valid(); it.Next() {
+		var oc cctypes.OutgoingBridgeCall
+		a.W.App.AppCodec().MustUnmarshal(it.Value(), &oc)
+		out[oc.Nonce] = oc
+	}
+	return out
+}
+
+// panicData: the native call whose action panics after partial work (see setupPanicClaim); executeClaim is the
+// only method with such a path reachable from valid state, whatever methods realise the program's effects.
+func (a *Adapter) panicData() (to common.Address, data []byte, value *big.Int) {
+	return pcenv.CrosschainAddr, pcenv.ExecuteClaimData(a.claimP), nil
+}
+
 // failData: a call of method m that fails INSIDE the native action, as late as the method allows.
 func (a *Adapter) failData(m string, x int) (to common.Address, data []byte, value *big.Int) {
 	e := a.E
@@ -292,9 +362,12 @@ func (a *Adapter) build(c Case, f, d int, drop map[int]bool) evmasm.Program {
 		switch s.T {
 		case "nat":
 			var to common.Address
-			if s.Fail {
+			switch s.Fail {
+			case "err":
 				to, st.Data, st.Value = a.failData(c.Methods[0], d)
-			} else {
+			case "panic":
+				to, st.Data, st.Value = a.panicData()
+			default:
 				to, st.Data, st.Value = a.nativeData(c.Methods[s.K-1], s.K, d)
 			}
 			st.To = evmasm.Addr(to.Bytes())
@@ -430,10 +503,40 @@ type CaseCuts struct {
 	Ample     uint64     `json:"ample"`     // gas used with ample gas
 	Classes   []CutClass `json:"classes"`
 	Probed    int        `json:"probed"`
+	Panics    bool       `json:"panics"` // the ample-gas execution is aborted by a panic
 }
 
-func (a *Adapter) trace(ctx sdk.Context, data []byte, gas uint64) (*pcenv.Trace, error) {
-	return a.E.TraceMsg(ctx, a.userA, a.ex[0], nil, gas, data)
+// trace runs the case's message (user -> executor 0) with gas limit `gas` on a throw-away branch of ctx under the
+// frame tracer (same message fields as world.EthTx / pcenv.TraceMsg).  panicked: the execution was aborted by a
+// Go panic of the application (baseapp fails such a transaction and discards everything); the trace is then
+// PARTIAL - the opcodes up to the aborting call and the frames completed before it (frames still open have no
+// fate).
+func (a *Adapter) trace(ctx sdk.Context, data []byte, gas uint64) (tr *pcenv.Trace, panicked bool, err error) {
+	cctx, _ := ctx.CacheContext()
+	to := a.ex[0]
+	msg := &core.Message{From: a.userA, To: &to, Nonce: a.W.App.EvmKeeper.GetNonce(cctx, a.userA), Value: big.NewInt(0), GasLimit: gas,
+		GasPrice: big.NewInt(0), GasFeeCap: big.NewInt(0), GasTipCap: big.NewInt(0), Data: data, AccessList: ethtypes.AccessList{}}
+	tr = &pcenv.Trace{Free: map[common.Address]bool{pcenv.StakingAddr: true, pcenv.CrosschainAddr: true}}
+	var res *evmtypes.MsgEthereumTxResponse
+	func() {
+		defer func() {
+			if r := recover(); r != nil {
+				panicked = true
+				if a.debug {
+					fmt.Printf("DEBUG gas=%d: execution aborted by panic: %v\n", gas, r)
+				}
+			}
+		}()
+		res, err = a.W.App.EvmKeeper.ApplyMessage(cctx, msg, tr, false)
+	}()
+	if panicked {
+		return tr, true, nil
+	}
+	if err != nil {
+		return nil, false, err
+	}
+	tr.VmError, tr.GasUsed, tr.Failed = res.VmError, res.GasUsed, res.Failed()
+	return tr, false, nil
 }
 
 // Profile measures the out-of-gas classes of one case on the root world.
@@ -443,16 +546,18 @@ func (a *Adapter) Profile(id string) *CaseCuts {
 	}
 	c := a.Cases[id]
 	data := a.build(c, 0, 0, nil).Encode()
-	full, err := a.trace(a.root, data, ampleGas)
+	// with ample gas; when the execution is aborted by a panic the profile covers the gas limits up to the
+	// aborting call (beyond it every limit behaves like ample gas)
+	full, pan, err := a.trace(a.root, data, ampleGas)
 	pcenv.Must(err)
 	_, oog0 := a.fates(c, full)
 	pcenv.Mustf(patKey(oog0) == strings.Repeat("0", len(oog0)), "case %s runs out of gas with ample gas: %+v", id, full.Frames)
-	cc := &CaseCuts{}
+	cc := &CaseCuts{Panics: pan}
 	// intrinsic gas: smallest limit that is not refused
 	lo, hi := uint64(20_000), uint64(21_000+16*len(data)+1)
 	for lo+1 < hi {
 		mid := (lo + hi) / 2
-		if _, err := a.trace(a.root, data, mid); err != nil {
+		if _, _, err := a.trace(a.root, data, mid); err != nil {
 			lo = mid
 		} else {
 			hi = mid
@@ -503,7 +608,7 @@ func (a *Adapter) Profile(id string) *CaseCuts {
 		if p, ok := pat[l]; ok {
 			return p
 		}
-		tr, err := a.trace(a.root, data, l)
+		tr, _, err := a.trace(a.root, data, l)
 		pcenv.Must(err)
 		_, oog := a.fates(c, tr)
 		k := patKey(oog)
@@ -647,8 +752,17 @@ func (a *Adapter) Apply(ctx sdk.Context, op graph.Op) (sdk.Context, string) {
 	data := a.build(c, 0, 0, nil).Encode()
 	switch op.Name() {
 	case "RunProgram":
-		tr, err := a.trace(ctx, data, ampleGas)
+		tr, pan, err := a.trace(ctx, data, ampleGas)
 		pcenv.Must(err)
+		if pan {
+			// the application aborts the transaction: it must not be executed, nothing may be written
+			_, p, e := a.one(ctx, id, c, data, ampleGas, nil, "", nil)
+			pcenv.Mustf(p == nil, "%s: the traced run panicked, the transaction did not", id)
+			if a.debug {
+				fmt.Println("DEBUG", id, e)
+			}
+			return ctx, "rej"
+		}
 		fate, _ := a.fates(c, tr)
 		td, tl := a.twin(ctx, c, fate)
 		br, p, e := a.one(ctx, id, c, data, ampleGas, td, tl, a.dump(ctx))
@@ -697,12 +811,19 @@ func (a *Adapter) Apply(ctx sdk.Context, op graph.Op) (sdk.Context, string) {
 		var tdump map[string][]string
 		var tlogs, fkey string
 		mixed := false
-		for i, l := range ls {
-			tr, err := a.trace(ctx, data, l)
+		nok, npan := 0, 0
+		for _, l := range ls {
+			tr, pan, err := a.trace(ctx, data, l)
 			pcenv.Must(err)
 			fate, oog := a.fates(c, tr)
 			if patKey(oog) != patKey(want) {
 				panic(fmt.Sprintf("%s gas %d: pattern %s, profiled %s", id, l, patKey(oog), patKey(want)))
+			}
+			if pan {
+				_, p, _ := a.one(ctx, id, c, data, l, nil, "", nil)
+				pcenv.Mustf(p == nil, "%s gas %d: the traced run panicked, the transaction did not", id, l)
+				npan++
+				continue
 			}
 			if fk := strings.Join(fate, ","); fk != fkey {
 				// fates beyond out-of-gas are static (REVERT/INVALID/designed failures): equal within a class,
@@ -714,7 +835,8 @@ func (a *Adapter) Apply(ctx sdk.Context, op graph.Op) (sdk.Context, string) {
 			pcenv.Mustf(p != nil, "%s gas %d: %s", id, l, e)
 			pcenv.Mustf((p.Status == "failed") == tr.Failed, "%s gas %d: traced run and transaction disagree", id, l)
 			s := p.proj
-			if i == 0 {
+			nok++
+			if nok == 1 {
 				first, out = s, br
 			} else if s != first {
 				mixed = true
@@ -722,6 +844,13 @@ func (a *Adapter) Apply(ctx sdk.Context, op graph.Op) (sdk.Context, string) {
 					fmt.Printf("DEBUG %s pattern %s: gas %d gives %s, gas %d gave %s\n", id, patKey(want), l, s, ls[0], first)
 				}
 			}
+		}
+		if nok == 0 {
+			// every gas limit of the class reaches the panicking action: the transaction is aborted
+			return ctx, "rej"
+		}
+		if npan > 0 {
+			mixed = true // the same out-of-gas pattern with and without an abort: not a function of the pattern
 		}
 		if mixed {
 			p := a.getPriv(out)
@@ -987,7 +1116,7 @@ func (a *Adapter) splitCheck(o *obs, c Case) bool {
 					exp[d].Sub(exp[d], amt(s.K))
 				}
 			case "nat":
-				if s.Fail {
+				if s.Fail != "no" {
 					continue
 				}
 				m := c.Methods[s.K-1]
